@@ -30,3 +30,237 @@ pub const COLLIDING_SECRETS: &[(&str, &[u8], &[u8])] = &[
     ("murmur3_32", b"l678eg9uc8x98hm9", b"9jdykmyhq52t0m8y"),
     ("murmur3_32", b"KKKKKKKKKKKKKKKKKKKKKKKKKKKKKKKKKKKKKKKKKKKKKKKKKKKKKKKKKKKKcy60pl7f", b"KKKKKKKKKKKKKKKKKKKKKKKKKKKKKKKKKKKKKKKKKKKKKKKKKKKKKKKKKKKK46rnen16"),
 ];
+
+
+// ---------------------------------------------------------------------------
+// Colliding control messages
+// ---------------------------------------------------------------------------
+
+use crate::model::*;
+
+/// The 32-bit fingerprints a memo is likely to be keyed by.
+pub const HASHES: [(&str, fn(&[u8]) -> u32); 9] = [
+    ("fnv1a32", fnv1a32),
+    ("fnv1_32", fnv1_32),
+    ("djb2", djb2),
+    ("djb2_xor", djb2_xor),
+    ("sdbm", sdbm),
+    ("java31", java31),
+    ("crc32", crc32),
+    ("adler32", adler32),
+    ("murmur3_32", murmur3_32),
+];
+
+pub fn fnv1a32(b: &[u8]) -> u32 {
+    b.iter().fold(0x811c_9dc5u32, |h, &c| (h ^ c as u32).wrapping_mul(0x0100_0193))
+}
+pub fn fnv1_32(b: &[u8]) -> u32 {
+    b.iter().fold(0x811c_9dc5u32, |h, &c| h.wrapping_mul(0x0100_0193) ^ c as u32)
+}
+pub fn djb2(b: &[u8]) -> u32 {
+    b.iter().fold(5381u32, |h, &c| h.wrapping_mul(33).wrapping_add(c as u32))
+}
+pub fn djb2_xor(b: &[u8]) -> u32 {
+    b.iter().fold(5381u32, |h, &c| h.wrapping_mul(33) ^ c as u32)
+}
+pub fn sdbm(b: &[u8]) -> u32 {
+    b.iter().fold(0u32, |h, &c| (c as u32).wrapping_add(h << 6).wrapping_add(h << 16).wrapping_sub(h))
+}
+pub fn java31(b: &[u8]) -> u32 {
+    b.iter().fold(0u32, |h, &c| h.wrapping_mul(31).wrapping_add(c as u32))
+}
+pub fn crc32(b: &[u8]) -> u32 {
+    let mut crc = 0xFFFF_FFFFu32;
+    for &c in b {
+        crc ^= c as u32;
+        for _ in 0..8 {
+            crc = if crc & 1 != 0 { (crc >> 1) ^ 0xEDB8_8320 } else { crc >> 1 };
+        }
+    }
+    !crc
+}
+pub fn adler32(b: &[u8]) -> u32 {
+    let (mut a, mut s) = (1u32, 0u32);
+    for &c in b {
+        a = (a + c as u32) % 65521;
+        s = (s + a) % 65521;
+    }
+    (s << 16) | a
+}
+pub fn murmur3_32(b: &[u8]) -> u32 {
+    let (c1, c2) = (0xcc9e_2d51u32, 0x1b87_3593u32);
+    let mut h = 0u32;
+    let mut chunks = b.chunks_exact(4);
+    for ch in &mut chunks {
+        let mut k = u32::from_le_bytes([ch[0], ch[1], ch[2], ch[3]]);
+        k = k.wrapping_mul(c1).rotate_left(15).wrapping_mul(c2);
+        h = (h ^ k).rotate_left(13).wrapping_mul(5).wrapping_add(0xe654_6b64);
+    }
+    let t = chunks.remainder();
+    let mut k = 0u32;
+    if t.len() >= 3 {
+        k ^= (t[2] as u32) << 16;
+    }
+    if t.len() >= 2 {
+        k ^= (t[1] as u32) << 8;
+    }
+    if !t.is_empty() {
+        k ^= t[0] as u32;
+        k = k.wrapping_mul(c1).rotate_left(15).wrapping_mul(c2);
+        h ^= k;
+    }
+    h ^= b.len() as u32;
+    h ^= h >> 16;
+    h = h.wrapping_mul(0x85eb_ca6b);
+    h ^= h >> 13;
+    h = h.wrapping_mul(0xc2b2_ae35);
+    h ^ (h >> 16)
+}
+
+/// The message the colliding pairs are instances of: an opening SCCRQ whose
+/// Host Name ends in eight varying characters (`kind` 0) or whose Tie
+/// Breaker varies (`kind` 1). Ids and sequence numbers are those of every
+/// opening SCCRQ (all zero), so two instances differ in those 8 octets only.
+pub fn template(kind: u8, vary: [u8; 8]) -> SpecMessage {
+    let mut avps = vec![
+        SpecAvp { attr: 0, val: Val::Code(1) },
+        SpecAvp { attr: 2, val: Val::Pair(1, 0) },
+        SpecAvp { attr: 3, val: Val::Mask(3) },
+    ];
+    if kind == 0 {
+        let mut h = b"lns-".to_vec();
+        h.extend_from_slice(&vary);
+        avps.push(SpecAvp { attr: 7, val: Val::Bytes(h) });
+        avps.push(SpecAvp { attr: 9, val: Val::U16(7) });
+    } else {
+        avps.push(SpecAvp { attr: 7, val: Val::Bytes(b"lac".to_vec()) });
+        avps.push(SpecAvp { attr: 9, val: Val::U16(7) });
+        avps.push(SpecAvp { attr: 5, val: Val::U64(u64::from_be_bytes(vary)) });
+    }
+    SpecMessage::Control {
+        length: 0,
+        tunnel_id: 0,
+        session_id: 0,
+        ns: 0,
+        nr: 0,
+        avps,
+    }
+}
+
+/// What the fingerprint is taken over: 0 = the AVP area (octets 12..), 1 =
+/// the whole message.
+pub fn scope_of(b: &[u8], scope: u8) -> &[u8] {
+    if scope == 0 && b.len() >= 12 {
+        &b[12..]
+    } else {
+        b
+    }
+}
+
+/// One-off generator (`rl2tp-dst gen-collisions`): prints the table below.
+pub fn generate() {
+    let alpha = b"abcdefghijklmnopqrstuvwxyz0123456789";
+    println!("pub const COLLIDING_MESSAGES: &[(&str, u8, u8, [u8; 8], [u8; 8])] = &[");
+    for (name, f) in HASHES {
+        for scope in 0..2u8 {
+            for kind in 0..2u8 {
+                let mut rng = crate::rng::Rng::new(0xC011_1DE0 ^ crate::rng::fnv1a(name.as_bytes()) ^ ((scope as u64) << 8) ^ kind as u64);
+                let mut base = spec_encode(&template(kind, [0; 8]));
+                // where the varying octets sit
+                let probe = spec_encode(&template(kind, [0xA5; 8]));
+                let at = (0..base.len()).find(|&i| base[i] != probe[i]).unwrap();
+                let mut seen: std::collections::HashMap<u32, [u8; 8]> = std::collections::HashMap::new();
+                loop {
+                    let mut v = [0u8; 8];
+                    for x in v.iter_mut() {
+                        *x = if kind == 0 { alpha[rng.usize_below(alpha.len())] } else { rng.u8() };
+                    }
+                    base[at..at + 8].copy_from_slice(&v);
+                    let h = f(scope_of(&base, scope));
+                    if let Some(w) = seen.get(&h) {
+                        if *w != v {
+                            println!("    (\"{name}\", {scope}, {kind}, {:?}, {:?}),", w, v);
+                            break;
+                        }
+                    }
+                    seen.insert(h, v);
+                }
+            }
+        }
+    }
+    println!("];");
+}
+
+/// (hash, scope: 0 AVP area / 1 whole message, template kind, varying octets
+/// of A, of B): `template(kind, A)` and `template(kind, B)` encode to
+/// different octet strings of equal length whose fingerprints over `scope`
+/// are equal. Generated by `rl2tp-dst gen-collisions`; verified by selftest.
+pub const COLLIDING_MESSAGES: &[(&str, u8, u8, [u8; 8], [u8; 8])] = &[
+    ("fnv1a32", 0, 0, [105, 121, 51, 104, 116, 116, 52, 98], [108, 99, 50, 111, 102, 108, 106, 51]),
+    ("fnv1a32", 0, 1, [114, 126, 3, 23, 101, 255, 54, 242], [79, 1, 77, 53, 0, 228, 98, 222]),
+    ("fnv1a32", 1, 0, [112, 99, 121, 48, 97, 48, 51, 109], [103, 51, 106, 114, 55, 106, 111, 107]),
+    ("fnv1a32", 1, 1, [136, 241, 226, 203, 56, 244, 110, 126], [21, 231, 192, 223, 171, 145, 125, 212]),
+    ("fnv1_32", 0, 0, [119, 103, 52, 122, 107, 121, 57, 57], [98, 106, 107, 51, 110, 121, 121, 100]),
+    ("fnv1_32", 0, 1, [117, 124, 80, 59, 32, 38, 37, 157], [184, 251, 152, 63, 137, 188, 82, 149]),
+    ("fnv1_32", 1, 0, [104, 106, 110, 113, 56, 114, 52, 49], [111, 51, 51, 122, 97, 54, 56, 118]),
+    ("fnv1_32", 1, 1, [39, 234, 144, 145, 99, 93, 243, 25], [247, 141, 254, 184, 76, 58, 7, 207]),
+    ("djb2", 0, 0, [103, 56, 97, 55, 98, 53, 103, 48], [114, 102, 97, 114, 115, 51, 101, 111]),
+    ("djb2", 0, 1, [167, 97, 195, 35, 115, 186, 187, 118], [0, 69, 140, 181, 250, 200, 202, 186]),
+    ("djb2", 1, 0, [48, 55, 120, 56, 119, 104, 56, 107], [120, 107, 109, 119, 54, 113, 50, 57]),
+    ("djb2", 1, 1, [244, 74, 151, 36, 133, 45, 154, 75], [107, 178, 55, 169, 181, 73, 78, 39]),
+    ("djb2_xor", 0, 0, [52, 99, 109, 109, 53, 99, 55, 51], [53, 112, 53, 52, 101, 99, 104, 111]),
+    ("djb2_xor", 0, 1, [186, 145, 134, 247, 76, 186, 183, 245], [232, 19, 175, 204, 54, 204, 40, 100]),
+    ("djb2_xor", 1, 0, [102, 118, 101, 51, 55, 101, 105, 55], [107, 103, 48, 57, 104, 56, 50, 109]),
+    ("djb2_xor", 1, 1, [43, 184, 148, 155, 86, 85, 75, 232], [41, 61, 155, 158, 166, 211, 144, 72]),
+    ("sdbm", 0, 0, [55, 114, 57, 56, 99, 104, 99, 105], [115, 116, 48, 119, 106, 52, 55, 106]),
+    ("sdbm", 0, 1, [49, 91, 251, 144, 12, 11, 103, 197], [79, 154, 186, 133, 229, 164, 146, 25]),
+    ("sdbm", 1, 0, [110, 107, 122, 102, 109, 110, 106, 121], [51, 116, 56, 119, 56, 54, 55, 114]),
+    ("sdbm", 1, 1, [171, 188, 166, 218, 143, 199, 225, 207], [51, 181, 15, 73, 109, 213, 107, 242]),
+    ("java31", 0, 0, [109, 109, 52, 55, 98, 49, 56, 99], [108, 114, 106, 113, 122, 53, 121, 110]),
+    ("java31", 0, 1, [74, 244, 202, 117, 254, 21, 180, 72], [8, 179, 80, 242, 147, 93, 78, 215]),
+    ("java31", 1, 0, [57, 119, 115, 53, 49, 119, 117, 57], [113, 53, 102, 56, 116, 101, 101, 104]),
+    ("java31", 1, 1, [239, 78, 24, 255, 184, 206, 135, 222], [32, 221, 244, 168, 97, 175, 168, 188]),
+    ("crc32", 0, 0, [103, 100, 102, 55, 120, 106, 50, 119], [109, 119, 49, 121, 49, 48, 113, 98]),
+    ("crc32", 0, 1, [204, 175, 126, 3, 194, 129, 23, 153], [54, 87, 222, 54, 163, 45, 175, 51]),
+    ("crc32", 1, 0, [108, 54, 106, 98, 53, 109, 113, 115], [121, 53, 120, 51, 112, 101, 104, 114]),
+    ("crc32", 1, 1, [232, 54, 129, 64, 192, 113, 54, 186], [190, 75, 152, 11, 189, 235, 119, 114]),
+    ("adler32", 0, 0, [116, 54, 107, 109, 109, 120, 122, 108], [57, 110, 121, 112, 115, 113, 113, 104]),
+    ("adler32", 0, 1, [159, 75, 60, 153, 100, 172, 90, 2], [153, 169, 53, 159, 0, 54, 115, 108]),
+    ("adler32", 1, 0, [109, 119, 120, 105, 108, 98, 53, 102], [119, 104, 114, 119, 102, 106, 49, 101]),
+    ("adler32", 1, 1, [235, 24, 121, 241, 77, 171, 242, 10], [208, 148, 101, 202, 16, 180, 108, 158]),
+    ("murmur3_32", 0, 0, [50, 52, 53, 52, 111, 113, 112, 56], [97, 102, 102, 119, 106, 109, 113, 121]),
+    ("murmur3_32", 0, 1, [230, 114, 38, 140, 24, 167, 233, 13], [57, 128, 53, 63, 29, 43, 39, 227]),
+    ("murmur3_32", 1, 0, [48, 120, 105, 100, 120, 55, 113, 51], [53, 109, 57, 103, 57, 99, 114, 108]),
+    ("murmur3_32", 1, 1, [254, 187, 56, 26, 141, 153, 247, 140], [23, 122, 94, 143, 233, 85, 83, 197]),
+];
+
+/// A pair of different opening SCCRQs that one of the fingerprints cannot
+/// tell apart.
+pub fn colliding_pair(rng: &mut crate::rng::Rng) -> (SpecMessage, SpecMessage, &'static str) {
+    let (name, _scope, kind, a, b) = *rng.pick(COLLIDING_MESSAGES);
+    let (x, y) = (template(kind, a), template(kind, b));
+    if rng.bool() {
+        (x, y, name)
+    } else {
+        (y, x, name)
+    }
+}
+
+/// Selftest: every table row collides under the model's encoding.
+pub fn verify() -> Result<usize, String> {
+    for (name, scope, kind, a, b) in COLLIDING_MESSAGES {
+        let f = HASHES.iter().find(|h| h.0 == *name).ok_or("unknown hash")?.1;
+        let (x, y) = (spec_encode(&template(*kind, *a)), spec_encode(&template(*kind, *b)));
+        if x == y || x.len() != y.len() || f(scope_of(&x, *scope)) != f(scope_of(&y, *scope)) {
+            return Err(format!("row {name}/{scope}/{kind} does not collide"));
+        }
+    }
+    for (name, a, b) in COLLIDING_SECRETS {
+        if let Some(h) = HASHES.iter().find(|h| h.0 == *name) {
+            if a == b || a.len() != b.len() || (h.1)(a) != (h.1)(b) {
+                return Err(format!("secret pair for {name} does not collide"));
+            }
+        }
+    }
+    Ok(COLLIDING_MESSAGES.len() + COLLIDING_SECRETS.len())
+}
